@@ -29,6 +29,46 @@ EXC_OF_NATIVE = {ZeroDivisionError: 'ZeroDivisionError', TypeError: 'TypeError',
                  AttributeError: 'AttributeError'}
 
 
+def _same_term(a, b):
+    a, b = z3.simplify(a), z3.simplify(b)
+    return a.eq(b)
+
+
+def cancel_div(x, y):
+    """ (y * z) / y = z  and (z * y) / y = z over the reals, y != 0 being established by the caller """
+    xs = z3.simplify(x)
+    if z3.is_app(xs) and xs.decl().kind() == z3.Z3_OP_MUL:
+        args = [xs.arg(i) for i in range(xs.num_args())]
+        for i, a in enumerate(args):
+            if _same_term(a, y):
+                rest = args[:i] + args[i + 1:]
+                r = rest[0]
+                for t in rest[1:]:
+                    r = r * t
+                return r
+    # ToReal(p * n) / ToReal(p): integer products lifted to the reals
+    if z3.is_app(xs) and xs.decl().kind() == z3.Z3_OP_TO_REAL:
+        inner = xs.arg(0)
+        ys = z3.simplify(y)
+        if z3.is_app(inner) and inner.decl().kind() == z3.Z3_OP_MUL and inner.num_args() == 2 and z3.is_app(ys) and \
+                ys.decl().kind() == z3.Z3_OP_TO_REAL:
+            a, b = inner.arg(0), inner.arg(1)
+            if a.eq(ys.arg(0)):
+                return z3.ToReal(b)
+            if b.eq(ys.arg(0)):
+                return z3.ToReal(a)
+    return None
+
+
+def cancel_mul(x, y):
+    """ (z / y) * y = z  and  y * (z / y) = z over the reals (the quotient exists, so y != 0) """
+    for u, v in ((x, y), (y, x)):
+        us = z3.simplify(u)
+        if z3.is_app(us) and us.decl().kind() == z3.Z3_OP_DIV and _same_term(us.arg(1), v):
+            return us.arg(0)
+    return None
+
+
 def native(fn, *args):
     try:
         return fn(*args)
@@ -158,6 +198,10 @@ class Ops(object):
             if as_real:
                 ctx.flags.add('real_arith')
                 x, y = real_term(ctx, sa), real_term(ctx, sb)
+                if op == 'Mult':
+                    c = cancel_mul(x, y)
+                    if c is not None:
+                        return mk_float(c)
                 return mk_float({'Add': x + y, 'Sub': x - y, 'Mult': x * y}[op])
             x, y = int_term(ctx, sa), int_term(ctx, sb)
             return mk_int({'Add': x + y, 'Sub': x - y, 'Mult': x * y}[op])
@@ -166,6 +210,9 @@ class Ops(object):
             if ctx.branch(y == 0):
                 raise PyRaise('ZeroDivisionError', ExcInst('ZeroDivisionError'))
             ctx.flags.add('real_arith')
+            c = cancel_div(x, y)
+            if c is not None:
+                return mk_float(c)
             return mk_float(x / y)
         if op in ('FloorDiv', 'Mod'):
             if as_real:
@@ -190,6 +237,7 @@ class Ops(object):
                         r = r * x
                     return mk_float(r)
                 ctx.flags.add('uninterpreted_pow')
+                ctx.axiom(z3.Implies(x > 0, rpow(x, y) > 0))      # a positive base has a positive power
                 return mk_float(rpow(x, y))
             x, y = int_term(ctx, sa), int_term(ctx, sb)
             cy = z3.simplify(y)
@@ -203,8 +251,11 @@ class Ops(object):
                 if ctx.branch(x == 0):
                     raise PyRaise('ZeroDivisionError', ExcInst('ZeroDivisionError'))
                 ctx.flags.add('uninterpreted_pow')
+                ctx.axiom(z3.Implies(x > 0, rpow(z3.ToReal(x), z3.ToReal(y)) > 0))
                 return mk_float(rpow(z3.ToReal(x), z3.ToReal(y)))
             ctx.flags.add('uninterpreted_pow')
+            ctx.axiom(z3.Implies(x > 0, ipow(x, y) > 0))
+            ctx.axiom(z3.Implies(y == 0, ipow(x, y) == 1))
             return mk_int(ipow(x, y))
         if op in ('BitAnd',) and not as_real:
             x, y = int_term(ctx, sa), int_term(ctx, sb)
